@@ -844,7 +844,7 @@ fn c15_package_builder_equals_package() {
         for e in &els { pb.add_element(e); }
         assert_eq!(ser(&pb), ser(&Package::new(refs)), "{} elements", n);
     }
-    for s in ["a string", "", "x", "caf\u{e9}", "Temp \u{b0}C", "\u{4e2d}\u{6587}", "tab\tquote\"", "\u{7f}\u{80}\u{ff}\u{100}"] {
+    for s in ["a string", "", "x", "ACPI\0", "\0", "a\0b", "\0\0", "caf\u{e9}", "Temp \u{b0}C", "\u{4e2d}\u{6587}", "tab\tquote\"", "\u{7f}\u{80}\u{ff}\u{100}"] {
         let owned = s.to_string();
         assert_eq!(ser(&s), ser(&owned), "borrowed vs owned string {:?}", s);
         let mut want = vec![0x0d];
@@ -1543,6 +1543,35 @@ fn c04_entries_decode_to_the_callers_values() {
 }
 fn xsdt_one(v: u64) -> acpi_tables::xsdt::XSDT { let mut t = acpi_tables::xsdt::XSDT::new(OEM, TBL, 1); t.add_entry(v); t }
 
+/// C02/C03/C05: RIMT platform devices with awkward names (empty, NUL-terminated, every length mod 4):
+/// device Length, ID-mapping offset, table Length and the handles of later IOMMUs all agree with the bytes
+#[test]
+fn c03_rimt_platform_names() {
+    use acpi_tables::*;
+    let names = ["", "a", "ab", "abc", "abcd", "DEV0", "\\_SB.DEV0", "\0", "ab\0", "DEV0\0", "\\_SB.DEV0\0", "a\0b", "\0\0"];
+    let mut t = rimt::RIMT::new(OEM, TBL, 1);
+    let io0 = t.add_iommu(rimt::Iommu::new(0, None, None, None, None));
+    let mut ios = vec![io0];
+    for (i, n) in names.iter().enumerate() {
+        let maps: Vec<rimt::IdMapping> = ios.iter().enumerate().map(|(k, io)| rimt::IdMapping::new(k as u32, k as u32, 1, *io, false, false, false)).collect();
+        let p = rimt::Platform::new(100 + i as u16, n.to_string(), if i % 2 == 0 { Some(maps) } else { None });
+        let pb = ser(&p);
+        assert_eq!(le16_at(&pb, 2) as usize, pb.len(), "platform device named {:?}: Length field vs bytes emitted", n);
+        assert_eq!(&pb[12..12 + n.len()], n.as_bytes(), "platform device name bytes"); assert_eq!(pb[12 + n.len()], 0, "name terminator");
+        if i % 2 == 0 { assert_eq!(le16_at(&pb, 8) as usize, 12 + n.len() + 1, "ID mapping array offset after the name {:?} and its terminator", n); assert_eq!(pb.len(), 12 + n.len() + 1 + 20 * ios.len()); }
+        t.add_platform(p);
+        ios.push(t.add_iommu(rimt::Iommu::new(200 + i as u16, None, None, None, None)));
+        let b = ser(&t);
+        check_table("RIMT (platform names)", &b);
+        let es = walk("RIMT", &b, 48, 2, 2, 4);
+        let iommus: Vec<usize> = es.iter().filter(|(o, _)| b[*o] == 0).map(|(o, _)| *o).collect();
+        assert_eq!(iommus.len(), ios.len());
+        // the IOMMU just added is the last device, and the mapping built from its handle (next round) must point at it
+        let maps: Vec<rimt::IdMapping> = vec![rimt::IdMapping::new(0, 0, 1, *ios.last().unwrap(), false, false, false)];
+        let probe = ser(&rimt::Platform::new(1, "p".to_string(), Some(maps)));
+        assert_eq!(le32_at(&probe, 14 + 12) as usize, *iommus.last().unwrap(), "handle of the IOMMU added after platform {:?} vs its offset in the image", n);
+    }
+}
 /// C05: offsets that need more than 16 bits (RIMT references are 4 bytes wide)
 #[test]
 fn c05_rimt_offsets_beyond_16_bits() {
